@@ -7,7 +7,10 @@
      - the journal is created inside the try block (was before it: an I/O
        error while writing the journal left it behind)
      - the start-up check compares directory entries by prefix/suffix (was
-       glob.glob(prefix + '*-wpullinc'): '[' in the prefix hid the journal).
+       glob.glob(prefix + '*-wpullinc'): '[' in the prefix hid the journal)
+     - the journal is kept when the rollback itself fails (was removed in a
+       finally clause: two I/O errors left junk behind the last record and no
+       journal).
 
    write_record, as primitive file operations (what reaches the OS):
 
@@ -17,8 +20,9 @@
          open(A,'ab'); write A c1 ... write A cn; close A      (gzip or plain:
                        the chunks are whatever the io stack flushes, in order)
      except OSError:
-         open(A,'r+b'); truncate A before_offset; close A ; re-raise
-     finally:
+         open(A,'r+b') (FileNotFoundError: nothing to cut); truncate A before_offset; close A
+         os.remove(J); re-raise         -- only when the rollback did not itself fail
+     (no error)
          os.remove(J)                                                       *)
 From Coq Require Import List NArith Bool String Ascii.
 From Wpull Require Import Lib.Decimal Lib.FsModel.
@@ -70,10 +74,17 @@ Definition final_ops (A : name) : list op := [Unlink (journal_name A)].
 
 Inductive result := Completed (s : fs) | Raised (s : fs) | Crashed (s : fs).
 
-(* [flt]: at most one injected fault, addressed by primitive number (the main
+(* open(A, 'r+b') of a file that does not exist is answered FileNotFoundError, which the handler
+   takes as "nothing to cut": one primitive without effect, not an error of the rollback *)
+Definition rollback_for (A : name) (off : N) (s1 : fs) : list op :=
+  if exists_file s1 A then rollback_ops A off else [Close A].
+
+(* [flt]: the injected fault of the main path, addressed by primitive number (the main
    path and the final unlink are numbered 0 .. length main_ops);
+   [flt2]: a further injected fault while the error handler runs (rollback, unlink),
+   addressed like [crash] by the number of the executed primitive;
    [crash]: the process dies at the g-th executed primitive (any phase). *)
-Definition write_record (A : name) (chunks : list bytes) (flt crash : option interrupt) (s : fs)
+Definition write_record2 (A : name) (chunks : list bytes) (flt flt2 crash : option interrupt) (s : fs)
   : result :=
   let off := size s A in
   match run_phase (main_ops A off chunks) 0 flt crash s with
@@ -85,16 +96,20 @@ Definition write_record (A : name) (chunks : list bytes) (flt crash : option int
       | (s2, EndErr, _) => Raised s2
       end
   | (s1, EndErr, n1) =>
-      match run_phase (rollback_ops A off) n1 None crash s1 with
+      match run_phase (rollback_for A off s1) n1 flt2 crash s1 with
       | (s2, EndCrash, _) => Crashed s2
-      | (s2, _, n2) =>
-          (* the handler finished, or itself raised (archive absent): finally runs either way *)
-          match run_phase (final_ops A) n2 None crash s2 with
+      | (s2, EndErr, _) => Raised s2          (* the rollback failed: the journal is kept *)
+      | (s2, EndOk, n2) =>
+          match run_phase (final_ops A) n2 flt2 crash s2 with
           | (s3, EndCrash, _) => Crashed s3
           | (s3, _, _) => Raised s3
           end
       end
   end.
+
+(* at most one injected fault *)
+Definition write_record (A : name) (chunks : list bytes) (flt crash : option interrupt) (s : fs) : result :=
+  write_record2 A chunks flt None crash s.
 
 (* ---- a whole run of the recorder: appends one after another ----
    Each attempt has its own chunking and its own (at most one) injected fault; the
@@ -236,4 +251,4 @@ Definition append_trace (A : name) (s : fs) (chunks : list bytes) : list (N * N)
 
 (* the primitives executed after a fault: rollback, then finally *)
 Definition rollback_trace (A : name) (s : fs) : list (N * N) :=
-  map (op_code A) (rollback_ops A (size s A) ++ final_ops A).
+  map (op_code A) (rollback_for A (size s A) s ++ final_ops A).
